@@ -87,16 +87,18 @@ def main(tier):
             for e in evs:
                 f.write(json.dumps(e) + "\n")
     files.append(dpath)
+    _, dn = funcs.survey(chk, files, lambda ev: (ev.get("e") == "Valid" and ev.get("ret") == 0) or (ev.get("e") == "Match" and max(ev.get("rets", [-1])) >= 0) or (ev.get("e") == "Match1" and ev.get("ret", -1) >= 0) or ev.get("e") == "Dispatch")
     out = funcs.judge_files(chk, "TraceDomain", "TraceDomain.cfg", files, "domain",
                             sigfn=lambda ev: "%s:%s" % (ev.get("e"), "".join(chr(c) for c in ev.get("s", ev.get("name", [])))[:24]))
     chk.cov["evaluations"] = out["events"]
     chk.cov["dispatch_events"] = sum(len(e) for e in disp)
     chk.cov["dispatch_forwarded"] = sum(1 for evs in disp for e in evs if e.get("forwarded"))
-    chk.cov["exhaustive"] = ("validation: all strings over {a,A,b,-,.,*,0} up to length %d with and without wildcard; "
+    chk.cov["exhaustive"] = True
+    chk.cov["exhaustive_what"] = ("validation: all strings over {a,A,b,-,.,*,0} up to length %d with and without wildcard; "
                              "matching: all names without '..' up to length %d against 8 domains" % (vlen, mlen))
-    chk.cov["distinct_nontrivial"] = sum(n for (p, n, rc, e), a in zip(prod, argsets) if a[0] in ("match", "edge"))
+    chk.cov["distinct_nontrivial"] = dn
     chk.cov["rule"] = ("one evaluation = one check_topdomain()/query_datalen() call (matching events carry the results for "
-                       "8 domains) or one dispatch decision of the real server, judged by TLC against Domain.tla")
+                       "8 domains) or one dispatch decision of the real server, judged by TLC against Domain.tla; non-trivial = distinct events with a positive outcome (domain accepted / name matches some domain) or a dispatch decision")
     chk.assumptions += ["TLC/JVM trusted"] + common.ASSUME_SIM[:1]
     return chk.finish()
 
